@@ -329,6 +329,7 @@ type pending struct {
 	m        *refSpam
 	s        *refSrc
 	id       string
+	name     string
 	cl       classified
 	opts     map[int][]option // world -> options
 	certain  bool
@@ -342,7 +343,7 @@ type pending struct {
 // maySkip: the antispam may not get to see this record at all.
 func (m *refSpam) prepare(id, name string, isNew bool, event []byte, tNs int64, meta map[string]string, maySkip bool) *pending {
 	cl := m.spec.classify(name, event, meta)
-	p := &pending{m: m, id: id, cl: cl, isNew: isNew, maySkip: maySkip, tNs: tNs}
+	p := &pending{m: m, id: id, name: name, cl: cl, isNew: isNew, maySkip: maySkip, tNs: tNs}
 	if cl.cls != clsCounted {
 		return p
 	}
